@@ -111,7 +111,7 @@ def _niter(rng, tier, k):
 
 # ------------------------------------------------------------- per solver
 def gen_fk(rng, tier, cs):
-    n_cases = 60 if tier == 'quick' else 300
+    n_cases = 60 if tier == 'quick' else 600
     for k in range(n_cases):
         n = rng.randint(1, 4)
         role = rng.choice(['prox', 'cc', 'grad'])
@@ -133,7 +133,7 @@ def gen_fk(rng, tier, cs):
 
 def gen_admm(rng, tier, cs):
     from odl.solvers.nonsmooth.admm import admm_linearized, admm_linearized_simple
-    for k in range(24 if tier == 'quick' else 120):
+    for k in range(24 if tier == 'quick' else 240):
         n, m = _sizes(rng, tier)
         M = _mat(rng, m, n)
         f, g = _fk(rng, n, 'prox'), _fk(rng, m, 'prox')
@@ -158,7 +158,7 @@ def gen_admm(rng, tier, cs):
 
 def gen_adup(rng, tier, cs):
     from odl.solvers.nonsmooth.alternating_dual_updates import adupdates, adupdates_simple
-    for k in range(20 if tier == 'quick' else 100):
+    for k in range(20 if tier == 'quick' else 200):
         n, _ = _sizes(rng, tier)
         nops = rng.choice([1, 2, 2, 3]) if k else 0
         ms = [rng.randint(1, 3) for _ in range(nops)]
@@ -201,7 +201,7 @@ def gen_adup(rng, tier, cs):
 
 def gen_dpdc(rng, tier, cs):
     from odl.solvers.nonsmooth.difference_convex import doubleprox_dc, doubleprox_dc_simple
-    for k in range(20 if tier == 'quick' else 100):
+    for k in range(20 if tier == 'quick' else 200):
         n, m = _sizes(rng, tier)
         M = _mat(rng, m, n)
         f, g, phi = _fk(rng, n, 'prox'), _fk(rng, m, 'cc'), _fk(rng, n, 'grad')
@@ -239,7 +239,7 @@ def gen_dpdc(rng, tier, cs):
 
 def gen_pdhg(rng, tier, cs):
     from odl.solvers.nonsmooth.primal_dual_hybrid_gradient import pdhg
-    for k in range(24 if tier == 'quick' else 120):
+    for k in range(24 if tier == 'quick' else 240):
         n, m = _sizes(rng, tier)
         M = _mat(rng, m, n)
         f, g = _fk(rng, n, 'prox'), _fk(rng, m, 'cc')
@@ -298,7 +298,7 @@ def _proj(rng):
 
 def gen_lw(rng, tier, cs):
     from odl.solvers.iterative.iterative import landweber
-    for k in range(16 if tier == 'quick' else 80):
+    for k in range(16 if tier == 'quick' else 160):
         n, m = _sizes(rng, tier)
         M = _mat(rng, m, n)
         rhs = _vec(rng, m)
@@ -335,7 +335,7 @@ def gen_lw(rng, tier, cs):
 
 def gen_kz(rng, tier, cs):
     from odl.solvers.iterative.iterative import kaczmarz
-    for k in range(16 if tier == 'quick' else 80):
+    for k in range(16 if tier == 'quick' else 160):
         n, _ = _sizes(rng, tier)
         nops = rng.choice([1, 2, 3])
         ms = [rng.randint(1, 3) for _ in range(nops)]
@@ -372,7 +372,7 @@ def gen_kz(rng, tier, cs):
 
 def gen_pg(rng, tier, cs):
     from odl.solvers.nonsmooth.proximal_gradient_solvers import proximal_gradient
-    for k in range(20 if tier == 'quick' else 100):
+    for k in range(20 if tier == 'quick' else 200):
         n = rng.randint(1, 4)
         f, g = _fk(rng, n, 'prox'), _fk(rng, n, 'grad')
         gamma = _dy(rng)
@@ -409,7 +409,7 @@ def gen_pg(rng, tier, cs):
 
 def gen_em(rng, tier, cs):
     from odl.solvers.iterative.statistical import mlem, osmlem
-    for k in range(16 if tier == 'quick' else 80):
+    for k in range(16 if tier == 'quick' else 160):
         n, _ = _sizes(rng, tier)
         nops = rng.choice([1, 1, 2, 3])
         ms = [rng.randint(1, 3) for _ in range(nops)]
@@ -460,7 +460,7 @@ def gen_em(rng, tier, cs):
 
 def gen_sd(rng, tier, cs):
     from odl.solvers.smooth.gradient import steepest_descent
-    for k in range(16 if tier == 'quick' else 80):
+    for k in range(16 if tier == 'quick' else 160):
         n = rng.randint(1, 4)
         f = _fk(rng, n, 'grad')
         step = _dy(rng, (0.0625, 0.125, 0.25, 0.5))
@@ -490,7 +490,7 @@ def gen_sd(rng, tier, cs):
 
 def gen_dr(rng, tier, cs):
     from odl.solvers.nonsmooth.douglas_rachford import douglas_rachford_pd
-    for k in range(20 if tier == 'quick' else 100):
+    for k in range(20 if tier == 'quick' else 200):
         n, _ = _sizes(rng, tier)
         nops = rng.choice([0, 1, 2, 2, 3])
         ms = [rng.randint(1, 3) for _ in range(nops)]
@@ -949,7 +949,7 @@ def _rand_op(rng, tier, allow_grad=True):
 
 def probes(rng, tier):
     out = []
-    reps = 1 if tier == 'quick' else 5
+    reps = 1 if tier == 'quick' else 8
 
     def add(d, key, what):
         try:
